@@ -47,12 +47,13 @@ import (
 )
 
 const (
-	mtLayer  = "application/vnd.oci.image.layer.v1.tar+gzip"
-	mtConfig = "application/vnd.oci.image.config.v1+json"
-	mtMan    = "application/vnd.oci.image.manifest.v1+json"
-	mtIndex  = "application/vnd.oci.image.index.v1+json"
-	mtEmpty  = "application/vnd.oci.empty.v1+json"
-	refName  = "org.opencontainers.image.ref.name"
+	mtLayer       = "application/vnd.oci.image.layer.v1.tar+gzip"
+	mtConfig      = "application/vnd.oci.image.config.v1+json"
+	mtMan         = "application/vnd.oci.image.manifest.v1+json"
+	mtIndex       = "application/vnd.oci.image.index.v1+json"
+	mtEmpty       = "application/vnd.oci.empty.v1+json"
+	mtCacheConfig = "application/vnd.buildkit.cacheconfig.v0"
+	refName       = "org.opencontainers.image.ref.name"
 )
 
 // ---------------------------------------------------------------- catalogue (independent of regclient)
@@ -176,6 +177,16 @@ func buildCatalogue() {
 		ix.Manifests = append(ix.Manifests, d)
 	}
 	addObj("IX", "index", mtIndex, mustJSON(ix), []string{"M1", "M2"}, "")
+	// stored shapes other than "every index entry is a manifest": a buildkit cache export (an index whose
+	// entries are layer blobs plus a cache config blob) and an index nested in an index
+	addObj("LC1", "layer", mtLayer, pseudo("LC1", 210), nil, "")
+	addObj("LC2", "layer", mtLayer, pseudo("LC2", 330), nil, "")
+	addObj("CC", "config", mtCacheConfig, mustJSON(map[string]any{"layers": []any{map[string]any{"blob": sha(pseudo("LC1", 210)), "parent": -1}},
+		"records": []any{map[string]any{"digest": "sha256:c07"}}}), nil, "")
+	addObj("IB", "index", mtIndex, mustJSON(jman{SchemaVersion: 2, MediaType: mtIndex,
+		Manifests: []jdesc{descOf("LC1"), descOf("LC2"), descOf("CC")}}), []string{"LC1", "LC2", "CC"}, "")
+	addObj("IN", "index", mtIndex, mustJSON(jman{SchemaVersion: 2, MediaType: mtIndex, Manifests: []jdesc{descOf("IX")}}),
+		[]string{"IX"}, "")
 	addArtifact("A1", "LA", "M1", "application/vnd.c07.sig")
 	addArtifact("A2", "LB", "M1", "application/vnd.c07.sbom")
 	// referrers list of M1 in the source layout (fall-back tag), as a registry client would keep it
@@ -232,7 +243,7 @@ func mksrc(src string) {
 	}
 	writeFile(filepath.Join(src, "oci-layout"), []byte(`{"imageLayoutVersion":"1.0.0"}`))
 	idx := jman{SchemaVersion: 2, MediaType: mtIndex, Manifests: []jdesc{
-		tagged("M1", "m1"), tagged("M2", "m2"), tagged("M3", "m3"), tagged("IX", "ix"),
+		tagged("M1", "m1"), tagged("M2", "m2"), tagged("M3", "m3"), tagged("IX", "ix"), tagged("IB", "ib"), tagged("IN", "in"),
 		tagged("RLsrc", fallbackTag("M1"))}}
 	writeFile(filepath.Join(src, "index.json"), mustJSON(idx))
 	// OCI layout tars: index first (single pass) and index last (the importer has to re-read)
@@ -499,6 +510,12 @@ func setup(ctx context.Context, dir, src, state string) error {
 		if err = cp("v1", "m1"); err == nil {
 			err = cp("ix", "ix")
 		}
+	case "PB": // a tag on an ordinary image, a tag on a cache-export index (blob entries), a tag on a nested index
+		if err = cp("v1", "m1"); err == nil {
+			if err = cp("cache", "ib"); err == nil {
+				err = cp("nest", "in")
+			}
+		}
 	case "PR", "PR2":
 		if err = cp("v1", "m1", regclient.ImageWithReferrers()); err == nil && state == "PR2" {
 			err = runOp(ctx, rc, dir, src, "put_refd:A2")
@@ -544,6 +561,19 @@ func readClosure(ctx context.Context, rc *regclient.RegClient, dir string, m man
 			return err
 		}
 		for _, d := range dl {
+			if d.MediaType != mtMan && d.MediaType != mtIndex && !strings.Contains(d.MediaType, "manifest") {
+				// an index entry that is a blob (cache export): it must be readable as a blob
+				br, err := rc.BlobGet(ctx, tref(dir, ""), d)
+				if err != nil {
+					return fmt.Errorf("blob entry %s: %w", d.Digest, err)
+				}
+				b, err := io.ReadAll(br)
+				_ = br.Close()
+				if err != nil || sha(b) != d.Digest.String() {
+					return fmt.Errorf("blob entry %s: content does not match digest", d.Digest)
+				}
+				continue
+			}
 			cm, err := rc.ManifestGet(ctx, tref(dir, d.Digest.String()))
 			if err != nil {
 				return fmt.Errorf("child %s: %w", d.Digest, err)
